@@ -76,11 +76,10 @@ class Fix:
         self.payloads = {}
         # the default temporary directory of the children lives on ANOTHER file system (if there is one): code that
         # does not create its temporary file next to the destination cannot link()/rename() it into place
-        self.tmpdir = other_fs_tmpdir(wd)
+        self.tmpdir = _OTHER_TMP
 
     def cleanup(self):
-        if self.tmpdir:
-            shutil.rmtree(self.tmpdir, ignore_errors=True)
+        pass
 
     def content(self, idx, size):
         T = _T()
@@ -119,18 +118,42 @@ def scan(root):
     return out
 
 
+_OTHER_TMP = None      # set once per check run (before the worker pool is forked), removed at its end
+
+
 def other_fs_tmpdir(wd):
     """a fresh directory on another file system than the scratch area `wd`, if there is one"""
     try:
         here = os.stat(wd).st_dev
         for cand in ("/dev/shm",):
             if os.path.isdir(cand) and os.access(cand, os.W_OK) and os.stat(cand).st_dev != here:
-                d = os.path.join(cand, "bobverif-c09-tmp-%d-%s" % (os.getpid(), hashlib.sha1(wd.encode()).hexdigest()[:8]))
+                d = os.path.join(cand, "bobverif-C09-tmp-%d" % os.getpid())
                 os.makedirs(d, exist_ok=True)
                 return d
     except OSError:
         pass
     return None
+
+
+class other_tmp:
+    """context manager: the children's default temporary directory for the duration of one oracle/replay run"""
+
+    def __init__(self, ctx):
+        self.ctx = ctx
+
+    def __enter__(self):
+        global _OTHER_TMP
+        _OTHER_TMP = other_fs_tmpdir(self.ctx.tmp)
+        if _OTHER_TMP is None:
+            self.ctx.count("environment", "no second file system for the default temp dir")
+        return _OTHER_TMP
+
+    def __exit__(self, *exc):
+        global _OTHER_TMP
+        if _OTHER_TMP:
+            shutil.rmtree(_OTHER_TMP, ignore_errors=True)
+        _OTHER_TMP = None
+        return False
 
 
 # ------------------------------------------------------------------------------------------- oracle pieces
@@ -1134,6 +1157,11 @@ def _report(ctx, findings, case):
 
 
 def oracle(ctx):
+    with other_tmp(ctx):
+        _oracle(ctx)
+
+
+def _oracle(ctx):
     T = _T()
     _RECORDS["single"], _RECORDS["sched"], _RECORDS["complete"] = [], [], False
     have_strace = T.strace_works()
@@ -1316,6 +1344,11 @@ def correspond(ctx):
 
 
 def replay(ctx, case):
+    with other_tmp(ctx):
+        _replay(ctx, case)
+
+
+def _replay(ctx, case):
     mode = case.get("mode")
     wd = os.path.join(ctx.tmp, "replay")
     far = time.time() + 600
